@@ -1,6 +1,7 @@
 import Props.Obligations
 import Spec.U2f
 import Spec.Tables
+import Ctap.U2fProg
 /-
   C08 — U2F APDU parsing is total and follows the raw message format.
 -/
@@ -10,6 +11,20 @@ namespace C08
 theorem ob_control : (List.range 256).all (fun b =>
     ((Gen.controlByteTryFrom.find? (fun (lo, hi, _) => lo ≤ b ∧ b ≤ hi)).bind (·.2.2)) == Spec.controlByteOf b) = true := by
   decide +kernel
+
+/-- the body of `impl TryFrom<CommandView> for Request`, read statement by statement off the
+    source (guards, early returns, the control-byte conversion, the indexed length byte, the
+    `match ins` arms and the slices each request is built from), is the specified program; the
+    error `ControlByte::try_from` propagates is the specified one -/
+theorem ob_program : Gen.u2fProgram = Spec.u2fProgram ∧ Gen.controlByteErr = .incorrectDataParameter := by decide
+
+/-- hence what the source's statements do (the interpreter of `Ctap/U2fProg.lean`, in which
+    every indexing, slicing and `try_into().unwrap()` is an explicit outcome) is the model
+    `ctap1Parse` the theorems below are about -/
+theorem source_is_model (cla ins p1 : Nat) (data : List Byte) :
+    runProgram Gen.u2fProgram Gen.controlByteTryFrom cla ins p1 data =
+      ctap1Parse Gen.controlByteTryFrom cla ins p1 data := by
+  rw [ob_program.1]; exact runProgram_spec _ cla ins p1 data
 
 /-- none of iso7816's named instruction bytes is 1, 2 or 3, so the `_ => 0` quirk is harmless -/
 theorem named_not_u2f : ∀ i ∈ namedInstructions, i ≠ 0 ∧ i ≠ 1 ∧ i ≠ 2 ∧ i ≠ 3 := by decide
